@@ -1,7 +1,8 @@
 ---------------------------- MODULE TraceCmapImpl ----------------------------
 (* Binding of the implementation-shaped model to the code: hook-level traces  *)
 (* of the real cmap.Mutex (client calls/returns plus every decision point the *)
-(* code passed: cmap.(r)lock.lookedUp{found}, cmap.(r)lock.created, all       *)
+(* code passed: cmap.(r)lock.lookedUp{found}, cmap.(r)lock.created and the    *)
+(* entry points cmap.<release method>.begin, all                              *)
 (* recorded under one mutex) must be behaviours of CmapMutex.tla.  Each event *)
 (* is matched by the action it stands for, with the logged outcome as a       *)
 (* post-condition; the RWMutex steps, the current() check and the effect of the  *)
@@ -12,34 +13,50 @@ EXTENDS CmapMutex, TraceLib
 
 Trace == LoadTrace("trace.ndjson")
 Starts == {i \in 1..Len(Trace) : Trace[i].ev = "reset"}
-VARIABLES tr, l
-tvars == <<vars, tr, l>>
+VARIABLES tr, l,
+          pd           \* plain Delete(key) calls (issued at rest): g -> [st: none | called | begun | done, key]
+tvars == <<vars, tr, l, pd>>
 
-TInit == Init /\ tr \in Starts /\ l = tr
+TInit == Init /\ tr \in Starts /\ l = tr /\ pd = [g \in G |-> [st |-> "none", key |-> 0]]
 HasNext == l + 1 <= Trace[tr].end
 E == Trace[l + 1]
 Eat == l' = l + 1 /\ UNCHANGED tr
 Keep == UNCHANGED <<tr, l>>
 
-TCall == HasNext /\ E.ev = "acq_call" /\ Eat /\ Call(E.g, E.key, E.mode)
+TCall == HasNext /\ E.ev = "acq_call" /\ Eat /\ pd[E.g].st = "none" /\ Call(E.g, E.key, E.mode) /\ UNCHANGED pd
 TLook == /\ HasNext /\ E.ev = "hook" /\ E.point \in {"cmap.lock.lookedUp", "cmap.rlock.lookedUp"} /\ Eat
          /\ key[E.g] = E.key /\ mode[E.g] = (IF E.point = "cmap.lock.lookedUp" THEN "w" ELSE "r")
          /\ E.found = (items[E.key] # 0)
-         /\ Look(E.g)
+         /\ Look(E.g) /\ UNCHANGED pd
 TCreated == /\ HasNext /\ E.ev = "hook" /\ E.point \in {"cmap.lock.created", "cmap.rlock.created"} /\ Eat
             /\ key[E.g] = E.key /\ mode[E.g] = (IF E.point = "cmap.lock.created" THEN "w" ELSE "r")
-            /\ Create(E.g)
-TRet == HasNext /\ E.ev = "acq_ret" /\ E.ok /\ Eat /\ Ret(E.g)
-TRelCall == HasNext /\ E.ev = "rel_call" /\ Eat /\ Exit(E.g, E.how)
-TRelRet == HasNext /\ E.ev = "rel_ret" /\ Eat /\ RelRet(E.g)
-TDelete == /\ HasNext /\ E.ev = "delete" /\ Eat
-           /\ IF items[E.key] # 0 THEN Delete(E.key) ELSE UNCHANGED vars
+            /\ Create(E.g) /\ UNCHANGED pd
+TRet == HasNext /\ E.ev = "acq_ret" /\ E.ok /\ Eat /\ Ret(E.g) /\ UNCHANGED pd
+TRelCall == HasNext /\ E.ev = "rel_call" /\ Eat /\ Exit(E.g, E.how) /\ UNCHANGED pd
+(* the entry point of a release method: it must be the method the goroutine's pending release call names *)
+BeginOf == [unlock |-> "cmap.unlock.begin", runlock |-> "cmap.runlock.begin",
+            deleteunlock |-> "cmap.deleteunlock.begin", deleterunlock |-> "cmap.deleterunlock.begin"]
+TRelBegin == /\ HasNext /\ E.ev = "hook" /\ E.point \in {BeginOf[x] : x \in DOMAIN BeginOf} /\ Eat
+             /\ pc[E.g] = "unl" /\ E.point = BeginOf[rel[E.g]] /\ key[E.g] = E.key
+             /\ RelBegin(E.g) /\ UNCHANGED pd
+TRelRet == HasNext /\ E.ev = "rel_ret" /\ Eat /\ RelRet(E.g) /\ UNCHANGED pd
+(* plain Delete(key) by a goroutine that is not inside a section: call, entry point, effect (silent), return *)
+TDeleteCall == /\ HasNext /\ E.ev = "delete" /\ Eat /\ pc[E.g] = "idle" /\ pd[E.g].st = "none"
+               /\ pd' = [pd EXCEPT ![E.g] = [st |-> "called", key |-> E.key]] /\ UNCHANGED vars
+TDeleteBegin == /\ HasNext /\ E.ev = "hook" /\ E.point = "cmap.delete.begin" /\ Eat
+                /\ pd[E.g].st = "called" /\ pd[E.g].key = E.key
+                /\ pd' = [pd EXCEPT ![E.g].st = "begun"] /\ UNCHANGED vars
+DeleteEffect(g) == /\ pd[g].st = "begun" /\ pd' = [pd EXCEPT ![g].st = "done"]
+                   /\ IF items[pd[g].key] # 0 THEN Delete(pd[g].key) ELSE UNCHANGED vars
+TDeleteRet == /\ HasNext /\ E.ev = "delete_ret" /\ Eat /\ pd[E.g].st = "done"
+              /\ pd' = [pd EXCEPT ![E.g] = [st |-> "none", key |-> 0]] /\ UNCHANGED vars
 (* silent: no hook marks these *)
 Silent == /\ HasNext /\ Keep
-          /\ \E g \in G : WEnter(g) \/ WAcq(g) \/ RAcq(g) \/ Check(g) \/ (Rel(g) /\ ~crashed')
-TIgnore == HasNext /\ E.ev \in {"enter", "exit", "stuck", "quiet", "obs", "arrive", "cancel"} /\ Eat /\ UNCHANGED vars
+          /\ \/ \E g \in G : (WEnter(g) \/ WAcq(g) \/ RAcq(g) \/ Check(g) \/ (Rel(g) /\ ~crashed')) /\ UNCHANGED pd
+             \/ \E g \in G : DeleteEffect(g)
+TIgnore == HasNext /\ E.ev \in {"enter", "exit", "stuck", "quiet", "obs", "arrive", "cancel"} /\ Eat /\ UNCHANGED <<vars, pd>>
 
-TNext == TCall \/ TLook \/ TCreated \/ TRet \/ TRelCall \/ TRelRet \/ TDelete \/ Silent \/ TIgnore
+TNext == TCall \/ TLook \/ TCreated \/ TRet \/ TRelCall \/ TRelBegin \/ TRelRet \/ TDeleteCall \/ TDeleteBegin \/ TDeleteRet \/ Silent \/ TIgnore
 TSpec == TInit /\ [][TNext]_tvars
 Done == IF l = Trace[tr].end THEN PrintT(<<"DONE", tr>>) ELSE TRUE
 =============================================================================
